@@ -62,9 +62,12 @@ def cases(tier):
                                     # "reuse": the same Optimization object is used for a second, different starting allocation
                                     for tv in ("asc_bf", "desc_bf", "desc_total", "asc_total_zero"):
                                         yield dict(kind="tsc", nprog=nprog, years=yrs, bf=bf, ltype=ltype, lo=lo, hi=hi, mix=mix, p3=p3, tsc_t=tv)
+                                if mix == "paired" and nprog == 3 and p3 > 0:
+                                    # a pair plus TWO plain programs constrained in the same year (one of them can sit on a bound while the other moves)
+                                    yield dict(kind="tsc", nprog=4, years=yrs, bf=bf, ltype=ltype, lo=lo, hi=hi, mix=mix, p3=p3)
                                 if mix == "plain" and ltype == "abs":
                                     yield dict(kind="tsc", nprog=nprog, years=yrs, bf=bf, ltype=ltype, lo=lo, hi=hi, mix=mix, p3=p3, solver_fault=True)
-                                if mix in ("plain", "paired") and lo == 0 and hi == 0:
+                                if mix in ("plain", "paired") and ((lo == 0 and hi == 0) or (ltype == "rel" and mix == "plain")):
                                     yield dict(kind="tsc", nprog=nprog, years=yrs, bf=bf, ltype=ltype, lo=lo, hi=hi, mix=mix, p3=p3, reuse=True)
     for minp, maxp in itertools.product([None, [0.2, 0.1, 0.0], [0.5, 0.5, 0.0]], [None, [0.6, 0.6, 0.6], [1.0, 0.3, 0.7]]):
         for tot in (None, (50.0, 400.0)):
@@ -171,8 +174,8 @@ def world():
         spec["sim"] = [2018.0, 2024.0, 0.25]
         spec["years"] = [2018.0]
         spec["progs"] = dict(
-            progs=[dict(name=f"P{i}", pops=["pa"], comps=["a"], spend=s, uc=2.0, oneoff=True) for i, s in ((1, 100.0), (2, 50.0), (3, 30.0))],
-            covouts=[dict(par="mv", pop="pa", base=0.1, progs={"P1": 0.5, "P2": 0.4, "P3": 0.3})],
+            progs=[dict(name=f"P{i}", pops=["pa"], comps=["a"], spend=s, uc=2.0, oneoff=True) for i, s in ((1, 100.0), (2, 50.0), (3, 30.0), (4, 50.0))],
+            covouts=[dict(par="mv", pop="pa", base=0.1, progs={"P1": 0.5, "P2": 0.4, "P3": 0.3, "P4": 0.2})],
             instr=dict(start=2019.0),
             years=[2018.0],
         )
@@ -197,8 +200,8 @@ def run_tsc(case):
 
 def _run_tsc(case, holder, scale):
     w = world()
-    names = ["P1", "P2", "P3"][: case["nprog"]]
-    init = dict(P1=100.0 * scale, P2=50.0 * scale, P3=case["p3"] * scale)
+    names = ["P1", "P2", "P3", "P4"][: case["nprog"]]
+    init = dict(P1=100.0 * scale, P2=50.0 * scale, P3=case["p3"] * scale, P4=50.0 * scale)
     yrs = case["years"]
     ltype = case["ltype"]
     lower = (0.0 if not case["lo"] else (20.0 if ltype == "abs" else 0.5))
@@ -274,6 +277,8 @@ def _run_tsc(case, holder, scale):
         c = {a, 0.5 * a if np.isfinite(a) else a}
         c.add(lo_ if np.isfinite(lo_) else -1.0 if a == 0 else -abs(a))
         c.add(hi_ if np.isfinite(hi_) else (3 * a if a > 0 else 25.0))
+        if not np.isfinite(hi_) and a == 0:
+            c.add(1e6)  # far beyond anything meaningful (a paired ramp of this size moves everything)
         opts.append(sorted(c))
     ncalls = nret = 0
     fault = case.get("solver_fault")
@@ -316,6 +321,8 @@ def _run_tsc(case, holder, scale):
             for prog in hc["programs"][t]:
                 if prog in i2.alloc:
                     val = float(i2.alloc[prog].get(t))
+                    if val < -1e-9:
+                        vs.append(V("negative-spending", f"{lab} proposal={list(prop)}: {prog} in {t} gets {val!r}", None))
                     lo_, hi_ = hc["bounds"][t][prog]
                     if mix == "plain":
                         # bounds recomputed from the spec, not taken from the library's own table
